@@ -13,6 +13,8 @@ import SpsdkVerif.Proofs.FlashEncOtfad
 import SpsdkVerif.Proofs.FlashEncKeyBlob
 import SpsdkVerif.Proofs.FlashEncIee
 import SpsdkVerif.Proofs.FlashEncBee
+import SpsdkVerif.Proofs.FlashEncBeeHdr
+import SpsdkVerif.Proofs.FlashEncSb21
 
 namespace SpsdkVerif.C13
 open SpsdkVerif SpsdkVerif.Crypto SpsdkVerif.FlashEnc
@@ -34,6 +36,8 @@ theorem consts_agree :
     ∧ ieeHeaderTag = 0x49454542 ∧ ieeKeyblobVersion = 0x56010000 ∧ ieeXtsBlockSize = 4096 ∧ ieeEncBlockSize = 16
     ∧ ieeDataUnit = 4096 ∧ ieeKeyBlobsSize = 384 ∧ ieeTweakShift = 12 ∧ ieeCtrAddrShift = 4 ∧ ieeKeyFieldSize = 32
     ∧ beeEncrBlockSize = 1024 ∧ beeCtrAddrShift = 4 ∧ beeFacRegions = 4
+    ∧ beeTagL = 0x5F474154 ∧ beeTagH = 0x52444845 ∧ beeVersion = 0x56010000 ∧ beePrdbSize = 0x100
+    ∧ beeHdrPrdbOffset = 0x80 ∧ beeHdrSize = 0x200 ∧ beeModeCtr = 1
     ∧ crcMpegParams = Crc.crc32Mpeg2 := by
   decide
 
@@ -212,6 +216,113 @@ theorem counter_otfad (kb : KeyBlob) (h : kb.WF) (a : Nat) (ha : a % 16 = 0) :
   rw [List.take_left' h12, List.drop_left' h12]
   simp [zeros, beDec]
 
+/-! ## Phase 2: end-to-end statements (engine programmed from what SPSDK EXPORTS), BEE region header, SB2.1, constructor -/
+
+theorem ctxs_of_table (l : List KeyBlob) :
+    (l.map (fun kb => some (kb.ctx, true))).filterMap (fun o => o.map (·.1)) = l.map KeyBlob.ctx := by
+  induction l with
+  | nil => rfl
+  | cons x t ih => simp [ih]
+
+/-- OTFAD end to end: the engine whose contexts the ROM unwraps from the EXPORTED key-blob table (KEK, scrambling, byte
+    reversal) reads the plaintext back from the encrypted image. -/
+theorem otfad_end_to_end (h : CryptoLaws c) (bs : List KeyBlob)
+    (hwf : ∀ kb ∈ bs, kb.WF ∧ kb.zeroFill.length = 4 ∧ kb.crcFill = []) (hd : BlobsDisjoint bs)
+    (kek : Bytes) (hk : kek.length = 16) (scr : Option (Nat × Nat))
+    (hscr : ∀ m a, scr = some (m, a) → m < 2 ^ 32 ∧ a < 2 ^ 8) (rev : Bool) (n : Nat) (hn : n ∈ [0, 2, 4, 8, 16]) (rnd : Bytes)
+    (base : Nat) (hb : base % 16 = 0) (img : Bytes) (swap : Bool) :
+    ∃ t ct, Otfad.encryptKeyBlobs c bs kek scr rev n rnd = .ok t ∧ Otfad.encryptImage c bs img base swap = .ok ct ∧
+      (otfadHwReadAll c ((otfadUnwrapTable c kek scr rev n bs.length 0 t).filterMap (fun o => o.map (·.1))) swap base ct).take
+        img.length = img := by
+  obtain ⟨t, ht, _, hu⟩ := otfad_table_unwraps h bs hwf kek hk scr hscr rev n hn rnd
+  obtain ⟨ct, hct, hr, _⟩ := otfad_hw_inverts h bs (fun kb hkb => (hwf kb hkb).1) hd base hb img swap
+  refine ⟨t, ct, ht, hct, ?_⟩
+  rw [hu, ctxs_of_table]
+  exact hr
+
+theorem filterMap_id_map_some {α β : Type} (f : α → β) (l : List α) :
+    (l.map (fun x => some (f x))).filterMap id = l.map f := by
+  induction l with
+  | nil => rfl
+  | cons x t ih => simp [ih]
+
+/-- IEE end to end: the engine whose regions the ROM parses from the EXPORTED (XTS-encrypted) key-blob area reads the
+    plaintext back from the encrypted image. -/
+theorem iee_end_to_end (h : CryptoLaws c) (bs : List IeeBlob) (hne : bs ≠ []) (hwf : ∀ b ∈ bs, b.WF ∧ b.claimed)
+    (hd : IeeDisjoint bs) (k1 k2 : Bytes) (hk1 : k1.length = 32) (hk2 : k2.length = 32) (hk : k1 ≠ k2) (addr : Nat)
+    (base : Nat) (hb : base % 4096 = 0) (img : Bytes) :
+    ∃ t ct, Iee.encryptKeyBlobs c bs k1 k2 addr = .ok t ∧ Iee.encryptImage c bs img base = .ok ct ∧
+      (ieeHwReadAll c ((ieeUnwrapTable c k1 k2 addr bs.length t).filterMap id) base ct).take img.length = img := by
+  obtain ⟨t, ht, hu⟩ := iee_keyblobs_unwrap h bs hne (fun b hb' => (hwf b hb').1) k1 k2 hk1 hk2 hk addr
+  obtain ⟨ct, hct, hr, _⟩ := iee_hw_inverts h bs hwf hd base hb img
+  refine ⟨t, ct, ht, hct, ?_⟩
+  rw [hu, filterMap_id_map_some]
+  exact hr
+
+/-- The exported 0x200-byte BEE region header (EKIB = AES-ECB(SW key, KIB), EPRDB = AES-CBC(KIB key, KIB IV, PRDB))
+    decrypts and parses on the ROM side to the configured SW key, counter and FAC regions. -/
+theorem bee_header_unwraps (hl : CryptoLaws c) (h : BeeHdr) (hw : h.WF) :
+    ∃ b, h.export c = .ok b ∧ b.length = 512 ∧ beeHeaderUnwrap c h.engine.key b = some h.engine :=
+  FlashEnc.bee_header_unwraps hl h hw
+
+/-- BEE end to end: every exported region header parses back to its engine, and these engines read the plaintext
+    back from the encrypted image. -/
+theorem bee_end_to_end (h : CryptoLaws c) (hdrs : List BeeHdr) (hwf : ∀ x ∈ hdrs, x.WF)
+    (hd : BeeDisjoint (hdrs.map (·.engine))) (base : Nat) (hb : base % 16 = 0) (img : Bytes) :
+    (∀ x ∈ hdrs, ∃ b, x.export c = .ok b ∧ beeHeaderUnwrap c x.engine.key b = some x.engine) ∧
+    ∃ ct, Bee.exportImage c (hdrs.map (fun x => some x.engine)) img base = .ok ct ∧
+      (beeHwReadAll c (hdrs.map (·.engine)) base ct).take img.length = img := by
+  have he : beeEngines (hdrs.map (fun x => some x.engine)) = hdrs.map (·.engine) := by
+    unfold beeEngines; exact filterMap_id_map_some _ hdrs
+  constructor
+  · intro x hx
+    obtain ⟨b, h1, _, h3⟩ := FlashEnc.bee_header_unwraps h x (hwf x hx)
+    exact ⟨b, h1, h3⟩
+  · have hwf' : ∀ e ∈ beeEngines (hdrs.map (fun x => some x.engine)), e.WF := by
+      rw [he]; intro e hm
+      obtain ⟨x, hx, rfl⟩ := List.mem_map.mp hm
+      exact (hwf x hx).eng
+    obtain ⟨ct, h1, h2, _⟩ := bee_inverts h (hdrs.map (fun x => some x.engine)) hwf' (by rw [he]; exact hd) base hb img
+    exact ⟨ct, h1, by rw [he] at h2; exact h2⟩
+
+/-- The `KeyBlob` constructor accepts every well-formed blob, and what it accepts is well-formed — PROVIDED the key has
+    16 and the counter 8 bytes (and the blob can be exported): -/
+theorem keyblob_ctor_wf (kb : KeyBlob) (hk : kb.key.length = 16) (hc : kb.ctr.length = 8) (he : kb.end_ = 0 → kb.flags = 0) :
+    kb.ctorOk = true ↔ kb.WF :=
+  ⟨fun h => FlashEnc.sb21_wf_of_ctorOk kb h hk hc he, FlashEnc.sb21_ctorOk_of_wf kb⟩
+
+/- Full-strength statement `kb.ctorOk = true → kb.key.length = 16 ∧ kb.ctr.length = 8` ("invalid key is refused") is
+   FALSE on the current code (`and` instead of `or`, open finding C13-keyblob-ctor-accepts-wrong-size, proposed fix
+   C13-5): refuted by the `example` below.  What holds: -/
+theorem keyblob_ctor_lengths_partial (kb : KeyBlob) (h : kb.ctorOk = true) : kb.key.length = 16 ∨ kb.ctr.length = 8 :=
+  FlashEnc.sb21_ctor_lengths kb h
+
+example : ∃ kb : KeyBlob, kb.ctorOk = true ∧ kb.key.length = 32 :=
+  ⟨{ start := 0x1000, end_ := 0x1FFF, key := List.replicate 32 0, ctr := List.replicate 8 0, flags := 3 }, by decide, by decide⟩
+
+/- SB2.1 `encrypt (id) { load … > address; }`.  Full-strength statement — the engine programmed with the key blob reads
+   the data back at the load address for EVERY address whose (512-byte padded) data fit the window — is FALSE on the
+   current code (counter taken from the key blob start; open finding C13-sb21-encrypt-counter-from-blob-start,
+   proposed fix C13-6): refuted by the `example` below.  With the extra hypothesis `address = start`: -/
+/-- the padding unit of the SB2.1 `encrypt` command (512 in the source) only has to be a positive multiple of 16 -/
+theorem sb21_align_ok : sb21EncryptAlign % 16 = 0 ∧ 0 < sb21EncryptAlign := FlashEnc.sb21_align_ok
+
+theorem sb21_encrypt_inverts_partial (h : CryptoLaws c) (start end_ : Nat) (key ctr : Bytes) (swap : Bool)
+    (address : Nat) (data : Bytes) (hwf : (Sb21.blob start end_ key ctr).WF) (hfl : end_ % 4 = 3)
+    (haddr : address = start)
+    (hfit : Sb21.fits (Sb21.blob start end_ key ctr) address (zeroPad sb21EncryptAlign data).length) :
+    ∃ ct, Sb21.encrypt c start end_ key ctr swap address data = .ok ct ∧
+      (otfadHwReadAll c [(Sb21.blob start end_ key ctr).ctx] swap address ct).take data.length = data :=
+  FlashEnc.sb21_encrypt_inverts_partial h start end_ key ctr swap address data hwf hfl haddr hfit
+
+/-- SB2.1 `keywrap (id)`: the wrapped blob unwraps to the blob's key, counter, range — with the flags VLD|ADE
+    whatever the low bits of `end` say (open finding C13-sb21-keywrap-ignores-end-flags, proposed fix C13-7). -/
+theorem sb21_keywrap_unwraps (h : CryptoLaws c) (start end_ : Nat) (key ctr kek rnd : Bytes)
+    (hwf : (Sb21.blob start end_ key ctr).WF) (hk : kek.length = 16) (hr : rnd.length = 4) :
+    ∃ e, Sb21.keywrap c start end_ key ctr kek rnd = .ok e ∧ e.length = 64 ∧
+      otfadUnwrapEntry c kek 0 e = some ((Sb21.blob start end_ key ctr).ctx, true) :=
+  FlashEnc.sb21_keywrap_unwraps h start end_ key ctr kek rnd hwf hk hr
+
 /-! ## Non-vacuity and the defect the fix removes -/
 
 section Examples
@@ -261,6 +372,25 @@ private def exBee : BeeEngine := ⟨List.replicate 16 7, List.replicate 12 9 ++ 
 
 example : exBee.WF ∧ BeeDisjoint [exBee] := by
   refine ⟨⟨by decide, by decide, by decide, by decide⟩, by simp [BeeDisjoint, beeAllFacs, exBee]⟩
+
+/-- SB2.1 `encrypt` at a load address other than the key blob start (inside the window): NOT decryptable there … -/
+example : (match Sb21.encrypt toy 0x1000 0x1FFF (List.replicate 16 0x11) [1, 2, 3, 4, 5, 6, 7, 8] false 0x1400 exImg with
+    | .ok ct => decide ((otfadHwReadAll toy [(Sb21.blob 0x1000 0x1FFF (List.replicate 16 0x11) [1, 2, 3, 4, 5, 6, 7, 8]).ctx] false
+        0x1400 ct).take 32 ≠ exImg)
+    | .error _ => false) = true := by
+  decide +kernel
+
+/-- … and a key blob whose `end` says ADE = 0 (`…3fd`): `encrypt` leaves the data plain, but the wrapped blob's context
+    has ADE = 1, so the engine "decrypts" them. -/
+example : Sb21.encrypt toy 0x2000 0x23FD (List.replicate 16 0x11) [1, 2, 3, 4, 5, 6, 7, 8] false 0x2000 exImg = .ok exImg ∧
+    (Sb21.blob 0x2000 0x23FD (List.replicate 16 0x11) [1, 2, 3, 4, 5, 6, 7, 8]).ctx.ade = true ∧
+    otfadHwReadAll toy [(Sb21.blob 0x2000 0x23FD (List.replicate 16 0x11) [1, 2, 3, 4, 5, 6, 7, 8]).ctx] false 0x2000 exImg ≠ exImg := by
+  refine ⟨by decide +kernel, by decide +kernel, by decide +kernel⟩
+
+private def exHdr : BeeHdr := ⟨exBee, [1], 0, List.replicate 16 3, List.replicate 16 4⟩
+
+example : exHdr.WF :=
+  ⟨⟨by decide, by decide, by decide, by decide⟩, by decide, by decide, by decide, by decide, by decide, by decide⟩
 
 end Examples
 
